@@ -35,6 +35,20 @@ var externEffects = map[string]string{}
 var iterExterns = map[string]func(fv *FuncVerifier, st *State, env *Env, call *ast.CallExpr) iterInfo{}
 var iterMethodValues = map[string]func(fv *FuncVerifier, st *State, env *Env, sel *ast.SelectorExpr) iterInfo{}
 
+func init() {
+	iterExterns["slices.Backward"] = func(fv *FuncVerifier, st *State, env *Env, call *ast.CallExpr) iterInfo {
+		// yields (i, s[i]) for i = len(s)-1 ... 0
+		w := fv.w
+		s := fv.eval(st, env, call.Args[0])
+		idx := fv.fresh("bw_idx", w.SeqSort(SInt))
+		vals := fv.fresh("bw_val", s.Sort)
+		x := seqX(s.Sort)
+		st.Assume(And(eqT(w.SeqLen(idx), w.SeqLen(s)), eqT(w.SeqLen(vals), w.SeqLen(s))))
+		st.Assume(T(SBool, "(forall ((i$ Int)) (! (=> (and (<= 0 i$) (< i$ (len_%[1]s %[2]s))) (and (= (at_Int %[3]s i$) (- (- (len_%[1]s %[2]s) 1) i$)) (= (at_%[1]s %[4]s i$) (at_%[1]s %[2]s (- (- (len_%[1]s %[2]s) 1) i$))))) :pattern ((at_Int %[3]s i$)) :pattern ((at_%[1]s %[4]s i$))))", x, s.S, idx.S, vals.S))
+		return iterInfo{val: fv.fresh("bwiter", SRef), ys: idx, ys2: vals, pure: true}
+	}
+}
+
 func calleeOf(info *types.Info, call *ast.CallExpr) types.Object {
 	defer func() { recover() }()
 	return typeutil.Callee(info, call)
@@ -292,6 +306,38 @@ func init() {
 	reg("sort.Strings", "sort.Strings(x): x becomes sorted(x): same length, a permutation, ascending by the total order str_le; for a duplicate-free enumeration of a key set it is THE sorted enumeration of that set", func(fv *FuncVerifier, st *State, env *Env, c *CallCtx) []Term {
 		r := fv.sortedOf(c.args[0])
 		fv.assignTo(st, env, c.call.Args[0], r, nil)
+		return nil
+	})
+	reg("slices.Reverse", "slices.Reverse(s): s is replaced by its reversal (same length, s'[i] == s[len-1-i])", func(fv *FuncVerifier, st *State, env *Env, c *CallCtx) []Term {
+		w := fv.w
+		old := c.args[0]
+		nv := fv.fresh("reversed", old.Sort)
+		x := seqX(old.Sort)
+		st.Assume(eqT(w.SeqLen(nv), w.SeqLen(old)))
+		st.Assume(T(SBool, "(forall ((i$ Int)) (! (=> (and (<= 0 i$) (< i$ (len_%[1]s %[2]s))) (= (at_%[1]s %[2]s i$) (at_%[1]s %[3]s (- (- (len_%[1]s %[3]s) 1) i$)))) :pattern ((at_%[1]s %[2]s i$))))", x, nv.S, old.S))
+		fv.assignTo(st, env, c.call.Args[0], nv, nil)
+		return nil
+	})
+	reg("slices.Index", "slices.Index(s,v)=r: -1 <= r < len(s); r >= 0 ==> s[r] == v; deterministic", func(fv *FuncVerifier, st *State, env *Env, c *CallCtx) []Term {
+		w := fv.w
+		r := fv.uf("slices_index_"+seqX(c.args[0].Sort), SInt, "", c.args[0], c.args[1])
+		st.Assume(And(Le(IntLit(-1), r), Lt(r, w.SeqLen(c.args[0]))))
+		if w.IsSeq(c.args[1].Sort) {
+			st.Assume(Implies(Ge(r, IntLit(0)), w.SeqEq(w.SeqAt(c.args[0], r), c.args[1])))
+		} else {
+			st.Assume(Implies(Ge(r, IntLit(0)), eqT(w.SeqAt(c.args[0], r), c.args[1])))
+		}
+		return []Term{r}
+	})
+	reg("sort.Sort", "sort.Sort(sort.StringSlice(x)): same as sort.Strings(x); other arguments: elements permuted arbitrarily", func(fv *FuncVerifier, st *State, env *Env, c *CallCtx) []Term {
+		if conv, ok := ast.Unparen(c.call.Args[0]).(*ast.CallExpr); ok && len(conv.Args) == 1 {
+			if tv, ok := env.info.Types[conv.Fun]; ok && tv.IsType() && types.TypeString(tv.Type, nil) == "sort.StringSlice" {
+				x := fv.eval(st, &Env{info: env.info, binds: env.binds, spec: true}, conv.Args[0])
+				fv.assignTo(st, env, conv.Args[0], fv.sortedOf(x), nil)
+				return nil
+			}
+		}
+		fv.havocMapArgs(st, env, c.call)
 		return nil
 	})
 	reg("slices.Concat", "slices.Concat(a, b, ...): the concatenation of its arguments in order", func(fv *FuncVerifier, st *State, env *Env, c *CallCtx) []Term {
